@@ -160,10 +160,20 @@ func (n *c20Node) Post(ctx context.Context, s *SharedStore, p, e any) (Action, e
 func VH_C20_single() {
 	m := &c20Mon{}
 	m.setup()
-	n := &c20Node{BaseNode: NewBaseNode(WithMaxRetries(m.budget), WithWait(m.w)), m: m}
+	var n Node = &c20Node{BaseNode: NewBaseNode(WithMaxRetries(m.budget), WithWait(m.w)), m: m}
+	if vNondet[bool]("settingsFromOverriddenGetters") {
+		// the retry settings are what the node's GetMaxRetries / GetWait report: a node type that
+		// embeds the base node and overrides GetWait (a computed back-off) is waited for accordingly
+		vCover("settings-from-overridden-getters")
+		n = &c20Override{c20Node: &c20Node{BaseNode: NewBaseNode(WithMaxRetries(m.budget)), m: m}}
+	}
 	_, err := Run(m.ctx, n, NewSharedStore())
 	m.finish(err)
 }
+
+type c20Override struct{ *c20Node }
+
+func (n *c20Override) GetWait() time.Duration { return n.m.w }
 
 // the same per item inside a sequential batch (one item; retry loop is batch.go's own copy)
 func VH_C20_batchItem() {
